@@ -2098,7 +2098,13 @@ class unyt_array(np.ndarray):
                 out_arr = ret_class(out_arr, unit, bypass_validation=True)
         if out is not None:
             if mul != 1:
-                multiply(out, mul, out=out)
+                if isinstance(out_func, np.ndarray):
+                    # scale the bare view: going through out itself would
+                    # consult out's old unit again (and recurse when that
+                    # unit carries a cancellable ratio such as km/m)
+                    np.multiply(out_func, mul, out=out_func)
+                else:
+                    multiply(out, mul, out=out)
                 if np.shares_memory(out_arr, out):
                     mul = 1
             if isinstance(out, unyt_array):
